@@ -27,7 +27,10 @@ def _value():
     # 'nudge': the current value of the (first) addressed type changed by a tiny relative or absolute amount -- a fine parameter
     # sweep; a derived quantity must follow however small the change
     nudge = st.sampled_from([['nudge', 1e-6, 0.0], ['nudge', -3e-7, 0.0], ['nudge', 1e-9, 0.0], ['nudge', 0.0, 1e-9], ['nudge', 0.0, -2e-10], ['nudge', 1e-12, 0.0]])
-    return st.one_of(f, f, st.integers(1, 50), f.map(lambda v: ['np', v]), nudge)
+    # 'derived': the value that a derived entry of the addressed types currently has (their mean diameter / summed density):
+    # an assignment must be carried out even when the new value coincides with something already stored in a derived table
+    derived = st.just(['derived'])
+    return st.one_of(f, f, st.integers(1, 50), f.map(lambda v: ['np', v]), nudge, derived)
 
 
 def _val(v):
@@ -73,7 +76,14 @@ class DensityDiameterHistory(History):
         key = self._key(state, op['key'])
         names = key if isinstance(key, list) else [key]
         which = 'm_rho' if op['op'] == 'set_density' else 'm_dia'
-        if isinstance(op['value'], list) and op['value'][0] == 'nudge':
+        if isinstance(op['value'], list) and op['value'][0] == 'derived':
+            cur = [float(state[which][n]) for n in names if n in state[which]]
+            if len(cur) >= 2:
+                val = (cur[0] + cur[1]) / 2.0 if which == 'm_dia' else cur[0] + cur[1]
+                state['derived_value'] = True
+            else:
+                val = 1.5
+        elif isinstance(op['value'], list) and op['value'][0] == 'nudge':
             cur = float(state[which].get(names[0], 1.0))
             val = cur * (1.0 + op['value'][1]) + op['value'][2]
             if val != cur and names[0] in state[which]:
@@ -157,6 +167,8 @@ class DensityDiameterHistory(History):
             out.label('reassign-after-other')
         if state.get('nudged'):
             out.label('tiny-change-reassignment')
+        if state.get('derived_value'):
+            out.label('value-equals-derived-entry')
         if any(isinstance(op.get('key'), list) for op in trace):
             out.label('list-key')
         if len(state['m_rho']) == len(state['types']) and len(state['m_dia']) == len(state['types']):
